@@ -6,6 +6,7 @@ CONSTANTS
   MaxSeq = 2
   InitSeqs = {0}
   Packets <- PacketsFull
+  PrePackets <- PacketsFull
   Mode = "open"
   Dev = {}
   SupBase = 1
@@ -14,6 +15,7 @@ CONSTANTS
   MaxT = 1
   MaxBurst = 2
   MaxReact = 2
+  MaxPre = 2
   MaxEv = 0
   TickEnds = FALSE
   UseHint = FALSE
@@ -31,6 +33,8 @@ PROPERTY SuppressionDecision
 PROPERTY EmitsOnlyLocal
 PROPERTY CallbackPublishEmits
 PROPERTY OutdatedStartsSuppression
+PROPERTY PublishThenRecvMerges
+PROPERTY PublishThenRecvAnnounces
 PROPERTY Witnesses
 VIEW View
 CHECK_DEADLOCK FALSE
